@@ -6,6 +6,7 @@ import (
 	"fmt"
 	"io"
 	"reflect"
+	"sync"
 
 	ws "github.com/gorilla/websocket"
 
@@ -54,6 +55,10 @@ func runC03(ctx *core.Ctx, out *core.Out) {
 	r := ctx.R
 	if ctx.Variant != "plain" && ctx.Idx < 8*41*4/64+1 {
 		maskEnum(ctx, out)
+		return
+	}
+	if ctx.Variant == "plain" && ctx.Idx%10 == 7 {
+		c03Many(ctx, out)
 		return
 	}
 	fromClient := r.Bool()
@@ -281,3 +286,48 @@ func maskEnum(ctx *core.Ctx, out *core.Out) {
 
 var _ = json.Marshal
 var _ = reflect.DeepEqual
+
+// c03Many: several connections read compressed streams at the same time (they
+// share the package-level decompressor pool).
+func c03Many(ctx *core.Ctx, out *core.Out) {
+	r := ctx.R
+	n := r.Range(3, 8)
+	type one struct {
+		st  *Stream
+		ex  rdExec
+		sub *core.Out
+		ok  bool
+	}
+	rs := make([]*one, n)
+	for i := range rs {
+		rr := gen.For(ctx.Seed, fmt.Sprintf("c03many/%d", i), ctx.Idx)
+		fromClient := rr.Bool()
+		st := genStream(rr, StreamOpts{FromClient: fromClient, Comp: true, MaxMsgs: 6, MaxSize: 4000, Controls: true, Close: true, UseZlib: false})
+		rs[i] = &one{st: st, ex: rdExec{RB: rr.BufSize(), Chunk: xport.ChunkRandom, Mode: rr.Intn(2), Server: fromClient, Comp: true}, sub: core.NewOut()}
+	}
+	var wg sync.WaitGroup
+	start := make(chan struct{})
+	for i, o := range rs {
+		wg.Add(1)
+		go func(i int, o *one) {
+			defer wg.Done()
+			<-start
+			rr := gen.For(ctx.Seed, fmt.Sprintf("c03many/x%d", i), ctx.Idx)
+			for rep := 0; rep < 3 && (rep == 0 || o.ok); rep++ {
+				o.ok = execRead(o.sub, "C03", o.st, o.st.DataEvents(), o.ex, rr)
+			}
+		}(i, o)
+	}
+	close(start)
+	wg.Wait()
+	out.Count("concurrent_reader_groups", 1)
+	out.Count("streams", int64(n))
+	out.Eval(fmt.Sprintf("many|%d|%d", n, ctx.Idx), true)
+	for i, o := range rs {
+		out.Count("messages_delivered", o.sub.Counters["messages_delivered"])
+		for _, v := range o.sub.Viols {
+			out.Violate(v.Signature+"-with-concurrent-connections", fmt.Sprintf("connection %d of %d reading concurrently: %s", i, n, v.What), v.Detail)
+			return
+		}
+	}
+}
